@@ -6,7 +6,7 @@
 //   neigh_run geom  <plan.json> <out.json>
 //        Euclidean length (x 10000) of the unit anisotropic vector of every placement
 //        (metric class, ndir, sector, Db position): the geometry TLC needs for the ball search
-//   neigh_run neigh <cases.ndjson> <plan.json> <out.ndjson> [startCfg startCase]
+//   neigh_run neigh <cases.ndjson> <plan.json> <out.ndjson> [startCase startCfg]
 //   neigh_run knn   <cases.ndjson> <out.ndjson> [startCase]
 //
 // Concretisation of a NeighMoving case (see plan.json written by c06.py for the configurations):
@@ -394,27 +394,33 @@ static int mainNeigh(int argc, char** argv)
   if (!fo) return 2;
   setvbuf(fo, nullptr, _IOFBF, 1 << 16);
   OUT_FD = fileno(fo);
-  int startCfg = argc > 5 ? atoi(argv[5]) : 0;
-  size_t startCase = argc > 6 ? (size_t)atol(argv[6]) : 0;
+  size_t startCase = argc > 5 ? (size_t)atol(argv[5]) : 0;
+  int startCfg = argc > 6 ? atoi(argv[6]) : 0;
   std::vector<Config> cfgs;
-  for (auto& v : plan.at("configs").arr) cfgs.push_back(readConfig(v));
-  long nrun = 0;
-  for (int g = startCfg; g < (int)cfgs.size(); g++)
+  std::vector<std::vector<double>> rots;
+  for (auto& v : plan.at("configs").arr)
   {
-    const Config& cfg = cfgs[g];
-    defineDefaultSpace(ESpaceType::RN, cfg.dim);
-    std::vector<double> rot = rotMat(cfg.dim, cfg.angles);
-    for (size_t k = (g == startCfg ? startCase : 0); k < cases.size(); k++)
+    cfgs.push_back(readConfig(v));
+    rots.push_back(rotMat(cfgs.back().dim, cfgs.back().angles));
+  }
+  long nrun = 0;
+  int curdim = -1;
+  for (size_t k = startCase; k < cases.size(); k++)
+  {
+    int id = cases[k].at("id").i();
+    for (int g = (k == startCase ? startCfg : 0); g < (int)cfgs.size(); g++)
     {
-      int id = cases[k].at("id").i();
+      const Config& cfg = cfgs[g];
       if (id % cfg.every != cfg.offset) continue;
+      if (cfg.dim != curdim) { defineDefaultSpace(ESpaceType::RN, cfg.dim); curdim = cfg.dim; }
       snprintf(CUR, sizeof CUR, "{\"i\":%d,\"g\":%d,\"k\":%zu", id, g, k);
       fflush(fo);     // keep the file consistent before entering the library
       Value o;
-      try { o = runCase(cases[k], cfg, rot, id); }
+      try { o = runCase(cases[k], cfg, rots[g], id); }
       catch (const std::exception& e) { o = Value::object(); o["i"] = Value(id); o["exc"] = Value(std::string(e.what())); }
       catch (...) { o = Value::object(); o["i"] = Value(id); o["exc"] = Value("unknown exception"); }
       o["g"] = Value(g);
+      o["k"] = Value((long)k);
       std::string s = vj::dump(o);
       fputs(s.c_str(), fo); fputc('\n', fo);
       nrun++;
@@ -582,6 +588,7 @@ static int mainKnn(int argc, char** argv)
       Value o = Value::object();
       o["i"] = Value(id);
       o["m"] = Value(metric);
+      o["k"] = Value((long)kc);
       Value obs = Value::array();
       for (auto& kv : seen)
       {
